@@ -15,6 +15,7 @@ import (
 	"sort"
 	"strings"
 	"sync"
+	"sync/atomic"
 	"testing"
 	"testing/synctest"
 	"time"
@@ -754,6 +755,85 @@ func TestC19HttpE2E(t *testing.T) {
 			Obs: map[string]any{"status": status, "delivered": len(got)},
 			Coq: rc.env.Big.coqLet(fmt.Sprintf("CHttpRaw %s %d %s", given, status, delivered)), Tags: []string{"http:raw-" + rc.mode}})
 		em.Marker("end", idx)
+		idx++
+	}
+
+	// concurrent writers on ONE HTTP connection (free-running): per writer the Writes are sequential (each returns
+	// after the hand-off), so every writer's order must be kept, every envelope arrives exactly once
+	for _, k := range []int{2, 8} {
+		if want(idx) {
+			em.Marker("begin", idx)
+			res := concWriters(k, 60, toB.Write, func(ctx context.Context) (*Rpc, error) {
+				if fromA == nil {
+					fromA = <-bConns
+				}
+				return fromA.Read(ctx)
+			})
+			emitConc(em, idx, "http", k, 60, res)
+			em.Marker("end", idx)
+		}
+		idx++
+	}
+
+	// A fault between the delivery and its answer: the far end hands the envelope to its reader, then the TCP
+	// connection drops before the 200 gets back (the handler around ServeHTTP aborts after ServeHTTP returned).
+	// ServeHTTP answers only AFTER the hand-off, so a lost RESPONSE is not a lost envelope: whatever Write makes of
+	// the failure (an error today; a second POST in a change like seeded/C19_7), the receiver reads every envelope
+	// AT MOST once, in write order. Placements: the fault on the first, on the middle, on two envelopes in a row.
+	for _, faults := range [][]bool{{true, false, false}, {false, true, false}, {true, true, false}, {false, false, true}} {
+		if want(idx) {
+			em.Marker("begin", idx)
+			var abortNext atomic.Bool
+			fConns := make(chan goat.RpcReadWriter, 4)
+			gohF := goat.NewGoatOverHttp(func(_ string, rw goat.RpcReadWriter) { fConns <- rw }, func(string) (string, error) { return aAddr, nil })
+			srvF := httptest.NewServer(http.HandlerFunc(func(w http.ResponseWriter, r *http.Request) {
+				gohF.ServeHTTP(w, r)
+				if abortNext.CompareAndSwap(true, false) {
+					panic(http.ErrAbortHandler) // the envelope has been handed over; the answer never leaves
+				}
+			}))
+			toF := gohA.NewConnection(strings.TrimPrefix(srvF.URL, "http://"))
+			type rr struct {
+				got []*Rpc
+			}
+			res := make(chan rr, 1)
+			go func() {
+				rw := <-fConns
+				var got []*Rpc
+				for {
+					x, err := rw.Read(context.Background())
+					if err != nil || x.GetHeader().GetMethod() == trConcMarker {
+						res <- rr{got}
+						return
+					}
+					got = append(got, x)
+				}
+			}()
+			var written, oks, read []string
+			for i, f := range faults {
+				e := &Rpc{Id: uint64(500 + i), Header: &goatorepo.RequestHeader{Method: fmt.Sprintf("/fault/%d", i), Source: "A", Destination: "srv"},
+					Body: &goatorepo.Body{Data: []byte(fmt.Sprintf("payload-%d", i))}}
+				abortNext.Store(f)
+				err := toF.Write(context.Background(), e)
+				abortNext.Store(false)
+				written = append(written, coqRpc(e, nil))
+				oks = append(oks, coqBool(err == nil))
+			}
+			if err := toF.Write(context.Background(), &Rpc{Id: 1, Header: &goatorepo.RequestHeader{Method: trConcMarker, Source: "A"}}); err != nil {
+				t.Fatalf("write of the marker: %v", err)
+			}
+			x := <-res
+			for _, g := range x.got {
+				read = append(read, coqRpc(g, nil))
+			}
+			em.Emit(Rec{Idx: idx, Kind: "http-e2e-fault", Desc: map[string]any{"fault_after_delivery_on": faults},
+				Obs: map[string]any{"writes_ok": oks, "read": len(x.got)},
+				Coq: fmt.Sprintf("CHttpE2EFault %s %s %s", coqList(written), coqList(oks), coqList(read)), Tags: []string{"http:e2e-fault"}})
+			em.Marker("end", idx)
+			gohF.Cancel()
+			srvF.CloseClientConnections()
+			go srvF.Close()
+		}
 		idx++
 	}
 
